@@ -18,6 +18,7 @@ import (
 const repoMod = "github.com/Dash-Industry-Forum/livesim2"
 
 type Ctx struct {
+	sharedParams map[*ssa.Parameter]string // parameters that receive shared state at some call site (sharedflow)
 	fset       *token.FileSet
 	prog       *ssa.Program
 	pkgs       map[string]*packages.Package // by path (all, incl deps)
